@@ -24,6 +24,25 @@ inline std::atomic<int> left{0};
 inline std::atomic<long> total_ops{0};
 inline thread_local int my_tid = -1;
 inline std::atomic<bool> trace{false};
+// random mode (search scenarios): every atomic operation of a registered thread is preceded by a pseudo-random
+// perturbation (nothing / yield / short sleep) drawn from a per-thread generator seeded by (seed, tid)
+inline std::atomic<unsigned> random_seed{0};
+inline thread_local unsigned long long rnd_state = 0;
+inline unsigned
+Rnd()
+{
+  rnd_state ^= rnd_state << 13;
+  rnd_state ^= rnd_state >> 7;
+  rnd_state ^= rnd_state << 17;
+  return static_cast<unsigned>(rnd_state >> 11);
+}
+inline void
+RegisterRandom(int tid, unsigned salt)
+{
+  my_tid = tid;
+  rnd_state = 0x9E3779B97F4A7C15ULL ^ (static_cast<unsigned long long>(random_seed.load(std::memory_order_relaxed)) << 32) ^ (static_cast<unsigned long long>(salt) * 0x100000001B3ULL + tid + 1);
+  if (rnd_state == 0) rnd_state = 1;
+}
 
 inline void
 Start(std::vector<Step> s)
@@ -56,6 +75,17 @@ verif_sched_point(const void *addr, const char *op, int before)
 {
   using namespace vsched;
   if (my_tid < 0) return;
+  if (random_seed.load(std::memory_order_relaxed) != 0) {
+    const unsigned r = Rnd() & 31U;
+    if (before) {
+      if (r < 8) std::this_thread::yield();
+      if (r == 31) std::this_thread::sleep_for(std::chrono::microseconds(20 + (Rnd() & 127U)));
+    } else {
+      // also after the operation: the window between a thread's last atomic step and what follows it
+      if (r >= 28) std::this_thread::sleep_for(std::chrono::microseconds(50 + (Rnd() & 255U)));
+    }
+    return;
+  }
   if (before) {
     auto t0 = std::chrono::steady_clock::now();
     while (true) {
